@@ -16,6 +16,7 @@ import (
 type C10Params struct {
 	Len       int
 	PFaultPct int // % of plugin ops with a failing provider call
+	FaultPct  int // % of plugin ops with a failing apiserver call
 	MultiPct  int // % of histories with a pod requesting two ranges (two addresses under one key)
 	RebindPct int // % chance that a failed / finished bind is repeated on ANOTHER approved node (DESIGN D14)
 }
@@ -114,6 +115,14 @@ func (g *C10Gen) pfault(max int) int {
 	return 0
 }
 
+// afault: an apiserver fault index (single fault per op), only while no key owns two addresses
+func (g *C10Gen) afault(w *plugin.World, max int) int {
+	if g.p.FaultPct > 0 && g.rng.Intn(100) < g.p.FaultPct && noMultiKey(w) {
+		return 1 + g.rng.Intn(max)
+	}
+	return 0
+}
+
 func (g *C10Gen) bind(w *plugin.World, ns, name, node string) string {
 	tp := w.TruthPod(ns, name)
 	lp := w.ListerPod(ns, name)
@@ -121,7 +130,7 @@ func (g *C10Gen) bind(w *plugin.World, ns, name, node string) string {
 		return "sync pods"
 	}
 	g.lastBind = []string{ns, name, node}
-	return fmt.Sprintf("bind %s %s %s %s ? ? 0 %d", ns, name, uidNum(tp), node, g.pfault(2))
+	return fmt.Sprintf("bind %s %s %s %s ? ? %d %d", ns, name, uidNum(tp), node, g.afault(w, 3), g.pfault(2))
 }
 
 // Next proposes the next op line.
@@ -178,7 +187,7 @@ func (g *C10Gen) Next(w *plugin.World, step int) string {
 					return "sync pods"
 				}
 				g.intent = key
-				return fmt.Sprintf("filter %s %s n1,n2,n3,n4 ? ? 0", id.ns, id.name)
+				return fmt.Sprintf("filter %s %s n1,n2,n3,n4 ? ? %d", id.ns, id.name, g.afault(w, 2))
 			})
 		}
 		if bound {
@@ -213,7 +222,7 @@ func (g *C10Gen) Next(w *plugin.World, step int) string {
 			if noMultiKey(w) {
 				pf = g.pfault(2)
 			}
-			return fmt.Sprintf("deliver %d 0 %d", i, pf)
+			return fmt.Sprintf("deliver %d %d %d", i, g.afault(w, 3), pf)
 		})
 		add(0.2, func() string { return fmt.Sprintf("drop %d", i) })
 	}
@@ -224,7 +233,7 @@ func (g *C10Gen) Next(w *plugin.World, step int) string {
 		if noMultiKey(w) {
 			pf = g.pfault(2)
 		}
-		return fmt.Sprintf("resync ? 0 %d", pf)
+		return fmt.Sprintf("resync ? %d %d", g.afault(w, 3), pf)
 	})
 	// the resync pass split into its snapshot and its per-record iterations: other moves happen in between
 	add(0.7, func() string { return "resyncsnap" })
@@ -239,11 +248,12 @@ func (g *C10Gen) Next(w *plugin.World, step int) string {
 			if noMultiKey(w) {
 				pf = g.pfault(2)
 			}
-			return fmt.Sprintf("resyncrec %d 0 %d", ips[rng.Intn(len(ips))], pf)
+			return fmt.Sprintf("resyncrec %d %d %d", ips[rng.Intn(len(ips))], g.afault(w, 3), pf)
 		})
 	}
 	add(1.2, func() string { return g.release(w) })
 	add(0.3, func() string { g.needSync = false; return "restart" })
+	add(0.6, func() string { return "syncips 0" })
 	add(0.8, func() string {
 		g.needSync = true
 		return fmt.Sprintf("app scale %s ns1 %s %d", []string{"sts", "dp", "sts"}[rng.Intn(3)], []string{"a", "d", "m"}[rng.Intn(3)], rng.Intn(3))
@@ -276,8 +286,8 @@ func (g *C10Gen) release(w *plugin.World) string {
 		return fmt.Sprintf("release %d sts_ ns1 a a-0 ~ 0 0", r.IP)
 	}
 	k := util.ParseKey(r.Key)
-	return fmt.Sprintf("release %d %s %s %s %s %s 0 %d", r.IP, tilde(k.AppTypePrefix), tilde(k.Namespace), tilde(k.AppName),
-		tilde(k.PodName), tilde(k.PoolName), g.pfault(1))
+	return fmt.Sprintf("release %d %s %s %s %s %s %d %d", r.IP, tilde(k.AppTypePrefix), tilde(k.Namespace), tilde(k.AppName),
+		tilde(k.PodName), tilde(k.PoolName), g.afault(w, 3), g.pfault(1))
 }
 
 // C10Histories is the generator handed to RunHistoriesWith.
